@@ -1,5 +1,5 @@
-(** StripFacts: concrete facts about the Impl model by computation: refutation witnesses of the
-    three defect classes (each inside the property's domain [wf]), non-vacuity examples. *)
+(** StripFacts: concrete facts about the Impl model by computation: the refutation witness of the
+    remaining defect class (inside the property's domain [wf]), the witnesses of the two repaired classes, non-vacuity examples. *)
 From Coq Require Import String.
 From Coq Require Import List Ascii ZArith Bool.
 From CGV Require Import Base.PyBase Base.PyVal Dialect.DialectImpl Frag.NDict Frag.StripImpl Frag.FragText.
@@ -13,16 +13,18 @@ Definition C_ := TAtom (S "C").
 Definition C13_at (fo : float_oracle) (toks : list tok) (dc : decor) : Prop :=
   strip_bonding_descriptors fo (render (decorate toks dc)) = strip_spec fo toks dc.
 
-(** class 1: C=1[$]CC1 *)
+(** former class 1 (repaired in /repo by f3554b8): C=1[$]CC1 keeps its ring digit, the descriptor has order 1 *)
 Definition w1_toks := [C_; TRing (Some BDouble) (S "1"); C_; C_; TRing None (S "1")].
 Definition w1_dc := {| d_lead := []; d_after := [[]; [mkd "$" [] None]; []; []; []] |}.
-Lemma refuted_ring : wf w1_toks w1_dc = true /\ class_of (decorate w1_toks w1_dc) = 1 /\ ~ C13_at fo0 w1_toks w1_dc.
-Proof. split; [vm_compute; reflexivity|]. split; [vm_compute; reflexivity|]. unfold C13_at. vm_compute. discriminate. Qed.
-(** class 2: C.[$] *)
+Lemma fixed_ring : wf w1_toks w1_dc = true /\ excluded w1_toks w1_dc = false /\
+  strip_bonding_descriptors fo0 (render (decorate w1_toks w1_dc)) = Ok (S "C=1CC1", [(0, [S "$1"])], [], []).
+Proof. split; [vm_compute; reflexivity|]. split; vm_compute; reflexivity. Qed.
+(** former class 2 (repaired in /repo by 0d0f450): C.[$] gives order 0 and the clean text C *)
 Definition w2_toks := [C_].
 Definition w2_dc := {| d_lead := []; d_after := [[mkd "$" [] (Some BZero)]] |}.
-Lemma refuted_zero : wf w2_toks w2_dc = true /\ class_of (decorate w2_toks w2_dc) = 2 /\ ~ C13_at fo0 w2_toks w2_dc.
-Proof. split; [vm_compute; reflexivity|]. split; [vm_compute; reflexivity|]. unfold C13_at. vm_compute. discriminate. Qed.
+Lemma fixed_zero : wf w2_toks w2_dc = true /\ excluded w2_toks w2_dc = false /\
+  strip_bonding_descriptors fo0 (render (decorate w2_toks w2_dc)) = Ok (S "C", [(0, [S "$0"])], [], []).
+Proof. split; [vm_compute; reflexivity|]. split; vm_compute; reflexivity. Qed.
 (** class 3: [<][#PEO]|4[>] *)
 Definition w3_toks := [TBracket (S "#PEO") None; TMult 4].
 Definition w3_dc := {| d_lead := [mkd "<" [] None]; d_after := [[]; [mkd ">" [] None]] |}.
